@@ -89,19 +89,30 @@ class Capture(logging.Handler):
 
 
 def read_capturing(text, **kw):
-    lg = logging.getLogger("lasio.reader")
-    old_level, old_prop = lg.level, lg.propagate
+    """Read with every warning lasio emits captured: records of level >= WARNING on any 'lasio*' logger, and Python
+    warnings. (The statement says 'skipped with a warning'; it does not say through which logger.)"""
+    import warnings
+
+    lg = logging.getLogger("lasio")
+    children = [logging.getLogger(n) for n in list(logging.root.manager.loggerDict) if n.startswith("lasio.")]
+    saved = [(x, x.level, x.propagate) for x in [lg] + children]
     h = Capture()
     lg.addHandler(h)
     lg.setLevel(logging.WARNING)
     lg.propagate = False
+    for c in children:
+        if c.level > logging.WARNING:
+            c.setLevel(logging.NOTSET)
     try:
-        las = read_text(text, **kw)
+        with warnings.catch_warnings(record=True) as caught:
+            warnings.simplefilter("always")
+            las = read_text(text, **kw)
     finally:
         lg.removeHandler(h)
-        lg.setLevel(old_level)
-        lg.propagate = old_prop
-    return las, h.records
+        for x, level, prop in saved:
+            x.setLevel(level)
+            x.propagate = prop
+    return las, h.records + [str(w.message) for w in caught]
 
 
 def key(it):
